@@ -32,6 +32,9 @@ type Result struct {
 	Diverged  int         `json:"diverged,omitempty"`
 }
 
+// specialRunners are profiles whose runs are not simulated RPC programs.
+var specialRunners = map[string]func(t *testing.T, prog *Program, tape *Tape, keepTrace bool) *Result{}
+
 var goroutineHdr = regexp.MustCompile(`(?m)^goroutine (\d+) \[`)
 
 // libGoroutines returns the ids of goroutines that have a frame inside the
@@ -87,11 +90,17 @@ func newSim(prog *Program, tape *Tape, keepTrace bool) *Sim {
 	if keepTrace {
 		s.K.Log = func(m string) { s.tracef("%s", m) }
 	}
+	if prog.Profile == "c20" {
+		s.hookStep = backpressureHook
+	}
 	return s
 }
 
 // RunOne executes one program under one schedule tape.
 func RunOne(t *testing.T, prog *Program, tape *Tape, keepTrace bool) (res *Result) {
+	if f, ok := specialRunners[prog.Profile]; ok {
+		return f(t, prog, tape, keepTrace)
+	}
 	res = &Result{Seed: prog.Seed, Prog: prog}
 	before := libGoroutines()
 	var s *Sim
